@@ -1122,30 +1122,39 @@ func ruleRelaySync(r *Run) {
 		r.Analysed(fn, 1)
 	}
 	// the responder handed to handlers is built from the handler's own send/sendMsg (or the handler itself)
-	if h := r.modelFunc("websocket.(*handler).Handle"); h != nil {
+	if hh := r.modelFunc("websocket.(*handler).Handle"); hh != nil {
 		found := false
-		ast.Inspect(h.Body, func(n ast.Node) bool {
-			cl, ok := n.(*ast.CompositeLit)
-			if !ok {
-				return true
+		var holders []*Func
+		for _, f := range r.P.All {
+			if f == hh || (f.Obj != nil && f.Pkg == hh.Pkg && r.onlyFrom(f, hh.Name)) {
+				holders = append(holders, f)
 			}
-			if _, tn := litTypeName(h.Info(), cl); tn != "responseSender" {
-				return true
-			}
-			ok2 := len(cl.Elts) > 0
-			for _, el := range cl.Elts {
-				v := el
-				if kv, isKV := el.(*ast.KeyValueExpr); isKV {
-					v = kv.Value
+		}
+		for _, h := range holders {
+			ast.Inspect(h.Body, func(n ast.Node) bool {
+				cl, ok := n.(*ast.CompositeLit)
+				if !ok {
+					return true
 				}
-				c := r.P.Canon(h, v)
-				if c != "recv" && c != "recv.method:send" && c != "recv.method:sendMsg" {
-					ok2 = false
+				if _, tn := litTypeName(h.Info(), cl); tn != "responseSender" {
+					return true
 				}
-			}
-			found = ok2
-			return true
-		})
+				ok2 := len(cl.Elts) > 0
+				for _, el := range cl.Elts {
+					v := el
+					if kv, isKV := el.(*ast.KeyValueExpr); isKV {
+						v = kv.Value
+					}
+					c := r.P.Canon(h, v)
+					if c != "recv" && c != "recv.method:send" && c != "recv.method:sendMsg" {
+						ok2 = false
+					}
+				}
+				found = ok2
+				return true
+			})
+		}
+		h := hh
 		r.Check("C6", h.Name+":responder", found, h.Body.Pos(), "the responder given to handlers and stored in participants queues into this connection's own send queue")
 	}
 	// sending loop: each queued message is written once, in queue order
